@@ -12,9 +12,9 @@
 (***************************************************************************)
 EXTENDS TraceBase, Limbs, FiniteSets
 
-VARIABLES l, cur, ds, okp, viol, nchk, nvals
-vars == << l, cur, ds, okp, viol, nchk, nvals >>
-Init == l = 1 /\ cur = [run |-> "none"] /\ ds = << >> /\ okp = {} /\ viol = << >> /\ nchk = 0 /\ nvals = 0
+VARIABLES l, cur, ds, okp, errp, viol, nchk, nvals
+vars == << l, cur, ds, okp, errp, viol, nchk, nvals >>
+Init == l = 1 /\ cur = [run |-> "none"] /\ ds = << >> /\ okp = {} /\ errp = {} /\ viol = << >> /\ nchk = 0 /\ nvals = 0
 e == Rec[l]
 
 ChannelLoss(err) == err \in {"PreprocessingError.ChannelErr.RecvError", "PreprocessingError.ChannelErr.SendError",
@@ -35,14 +35,22 @@ BadFor(p, Vs, F1) ==
   ELSE IF Leak2(ds[p], Vs, F1) THEN "the XOR of two transmitted 128-bit fields equals the global key"
   ELSE IF cur.tag.triples /\ Leak3(ds[p], Vs) THEN "the XOR of three transmitted 128-bit fields equals the global key"
   ELSE ""
-\* a party that aborted is not judged: only deviations that keep the run going
-\* matter (the key is drawn afresh for every run)
+\* A party that stays in the run (Ok, or it merely lost its peer) is judged on every transmitted field.  A party that
+\* ABORTED on a protocol check is judged too -- "an opened key sum is never offset by the global key at a peer's
+\* choosing" has no exception for a party that notices afterwards -- but without the leaky-AND check values: those are
+\* offset by the key whenever the triple is wrong, by the design of the protocol (DESIGN 13, Wrk17Pre.AbortLeakExact),
+\* and the run ends there.
 FieldsViol ==
   LET Vs == { e.vals[k] : k \in 1..Len(e.vals) }
       F1 == { e.vals[k][1] : k \in 1..Len(e.vals) }
-      bad == { p \in Judged \cap okp : BadFor(p, Vs, F1) # "" } IN
+      Ws == { e.vals_nolaand[k] : k \in 1..Len(e.vals_nolaand) }
+      G1 == { e.vals_nolaand[k][1] : k \in 1..Len(e.vals_nolaand) }
+      Msg(p) == IF p \in okp THEN BadFor(p, Vs, F1)
+                ELSE IF p \in errp THEN (IF BadFor(p, Ws, G1) = "" THEN "" ELSE BadFor(p, Ws, G1) \o " (party that aborted afterwards)")
+                ELSE ""
+      bad == { p \in Judged : Msg(p) # "" } IN
   IF bad = {} THEN << >>
-  ELSE LET p == CHOOSE x \in bad : TRUE IN << [line |-> l, run |-> cur.run, what |-> BadFor(p, Vs, F1), p |-> p] >>
+  ELSE LET p == CHOOSE x \in bad : TRUE IN << [line |-> l, run |-> cur.run, what |-> Msg(p), p |-> p] >>
 
 Next ==
   /\ l <= NRec /\ l' = l + 1
@@ -53,6 +61,8 @@ Next ==
   \* a real cheater would have carried on instead of stopping like the harness's one)
   /\ okp' = IF e.ev = "cfg" THEN {}
             ELSE IF e.ev = "res" /\ (e.kind = "ok" \/ (e.kind = "err" /\ ChannelLoss(e.err))) THEN okp \cup {e.p} ELSE okp
+  /\ errp' = IF e.ev = "cfg" THEN {}
+             ELSE IF e.ev = "res" /\ e.kind = "err" /\ ~ChannelLoss(e.err) THEN errp \cup {e.p} ELSE errp
   /\ nchk' = IF e.ev = "fields" THEN nchk + 1 ELSE nchk
   /\ nvals' = IF e.ev = "fields" THEN nvals + Len(e.vals) ELSE nvals
   /\ viol' = IF e.ev = "fields" /\ Len(viol) < 10 THEN viol \o FieldsViol ELSE viol
